@@ -64,6 +64,11 @@ structure ScanRes (σ : Type) where
   evaluated : List Nat
   ok : Bool
 
+/-- `keep_unvisited_wakeups` of `evaluate_impl`: an exception ends the scan at node `i`; the pending
+    times of the nodes after it (`pending > evaluation_time && pending < next`) are folded into `next`. -/
+def keepUnvisited (t : Time) (i : Nat) (g : G) : G :=
+  { g with next := (g.slots.drop (i + 1)).foldl (fun acc s => if s > t && olt s acc then some s else acc) g.next }
+
 /-- the `for (; cursor < node_count; ++cursor)` loop of `evaluate_impl` from index `i`
     (`fuel = node_count - i`). -/
 def scanFrom {σ : Type} (β : Beh σ) (t : Time) : Nat → Nat → G → σ → List Nat → ScanRes σ
@@ -74,7 +79,7 @@ def scanFrom {σ : Type} (β : Beh σ) (t : Time) : Nat → Nat → G → σ →
       let r := β.eval i t u
       let g' := r.reqs.foldl scheduleNode { g with cursor := i }
       if r.ok then scanFrom β t fuel (i + 1) g' r.st (ev ++ [i])
-      else { g := { g' with failed := true }, st := r.st, evaluated := ev ++ [i], ok := false }
+      else { g := keepUnvisited t i { g' with failed := true }, st := r.st, evaluated := ev ++ [i], ok := false }
     else if s > t then scanFrom β t fuel (i + 1) { g with next := omin g.next s, cursor := i } u ev
     else scanFrom β t fuel (i + 1) { g with cursor := i } u ev
 
